@@ -710,6 +710,165 @@ def decorate(rng, doc, p=0.5):
 
 
 # --------------------------------------------------------------------------
+# extreme magnitudes: valid documents whose numbers sit at the ends of binary64
+# --------------------------------------------------------------------------
+def fx(x: float) -> F:
+    return F(*x.as_integer_ratio())
+
+
+INF = math.inf
+FMAX = fx(1.7976931348623157e308)
+SUBNORMAL = F(1, 2 ** 1074)                    # 5e-324
+MINNORMAL = F(1, 2 ** 1022)
+TINY_MAGS = [SUBNORMAL, MINNORMAL, fx(1e-300), F(1, 2 ** 60), F(1, 2 ** 53)]
+HUGE_MAGS = [fx(1e17), fx(4e17), F(2 ** 53), F(2 ** 53 + 2), F(2 ** 60), fx(1e300), FMAX]
+# (ground area, areas of the other regions): the float sum of all of them is the ground area again
+ABSORBED = [(fx(4e17), [12, 4]), (fx(4e17), [F(12), F(4)]), (fx(1e17), [4]), (F(2 ** 53), [1]), (F(2 ** 53), [F(1), 1]),
+            (F(2 ** 60), [40, F(5, 2)]), (fx(1e300), [fx(1e17), 12]), (FMAX, [fx(1e290)]), (INF, [40]), (INF, [F(12), 4]),
+            (INF, [FMAX]), (1, [F(1, 2 ** 60)]), (F(40), [SUBNORMAL, MINNORMAL]), (2 ** 53, [1]), (fx(1e-300), [SUBNORMAL])]
+
+
+def binary64(x) -> bool:
+    """the number is handed to the code as the very value written in the document (a float always is; an int when float(int) is it)"""
+    if isinstance(x, bool) or isinstance(x, F):
+        return True
+    if isinstance(x, float):
+        return math.isfinite(x)
+    return abs(x) < 2 ** 1023 and int(float(x)) == x
+
+
+def extreme_exact(doc) -> bool:
+    """exact arithmetic (the model) and binary64 (the code) describe the same design: no infinity, no int beyond 2^53 that
+    is no binary64, no scalar aspect ratio whose inverse overflows, no module area whose float sum overflows"""
+    def nums(x):
+        if isinstance(x, dict):
+            for v in x.values():
+                yield from nums(v)
+        elif isinstance(x, list):
+            for v in x:
+                yield from nums(v)
+        elif nc.is_num(x):
+            yield x
+    if not all(binary64(x) for x in nums(doc)):
+        return False
+    for i in mods_of(doc).values():
+        if not isinstance(i, dict):
+            continue
+        ar = i.get("aspect_ratio")
+        if nc.is_num(ar) and not (MINNORMAL <= val(ar) <= F(2 ** 1022)):
+            return False
+        a = i.get("area")
+        if isinstance(a, dict) and not math.isfinite(sum(float(val(v)) for v in a.values())):
+            return False
+    return True
+
+
+def extremes(rng, doc, n_edits=None):
+    """A well-formed document with some numbers replaced by extreme ones, still well-formed: areas (scalar, per region; the
+    ground region next to regions 2^53 times smaller or larger, so that float sums absorb them), centres, aspect ratios
+    and net weights at 5e-324, 2^-1022, 1e-300, 2^-60, 1e17, 4e17, 2^53, 2^53 + 1 (an int), 2^53 + 2, 2^60, 1e300, the largest
+    float and infinity.  Returns (document, tags, exact): exact = the model can be run on it (extreme_exact)."""
+    d = deep(doc)
+    mods = d["Modules"]
+    soft, hard, term = kinds_of(d)
+    plain = [k for k in soft if "rectangles" not in mods[k]]       # the area is free: no rectangles to agree with
+    edits = []
+
+    def regions(k):
+        a = mods[k].get("area")
+        rs = [r for r in a if r != "_"] if isinstance(a, dict) else []
+        return rs + [r for r in ("dsp", "bram", "lut", "R_1", "DSP", "BRAM") if r not in rs]
+
+    def as_num(v):
+        if isinstance(v, float) or isinstance(v, int):
+            return v
+        return int(v) if (v.denominator == 1 and abs(v) < 2 ** 62 and rng.random() < 0.4) else v
+
+    def ground_absorbs(k):
+        g, others = rng.choice(ABSORBED)
+        names = regions(k)[:len(others)]
+        items = [("_", g)] + list(zip(names, others))
+        if rng.random() < 0.6:
+            rng.shuffle(items)
+        mods[k]["area"] = dict(items)
+        return "ground-absorbs"
+
+    def region_absorbs(k):
+        g, others = rng.choice([a for a in ABSORBED if a[0] != 1])
+        names = regions(k)
+        items = [(names[0], g), ("_", others[0])] + list(zip(names[1:], others[1:]))
+        if rng.random() < 0.6:
+            rng.shuffle(items)
+        mods[k]["area"] = dict(items)
+        return "region-absorbs"
+
+    def all_huge(k):
+        vs = rng.sample(HUGE_MAGS + [INF, INF], rng.randrange(2, 4))
+        names = ["_"] + regions(k) if rng.random() < 0.7 else regions(k)
+        mods[k]["area"] = dict(zip(names, [as_num(v) for v in vs]))
+        return "regions-huge"
+
+    def all_tiny(k):
+        vs = rng.sample(TINY_MAGS, rng.randrange(2, 4))
+        names = ["_"] + regions(k) if rng.random() < 0.7 else regions(k)
+        mods[k]["area"] = dict(zip(names, vs))
+        return "regions-tiny"
+
+    def scalar_area(k):
+        v = rng.choice(TINY_MAGS + HUGE_MAGS + [INF, 2 ** 53 + 1, 10 ** 17, 2 ** 60])
+        mods[k]["area"] = as_num(v) if rng.random() < 0.7 else {rng.choice(["_", "_", "dsp"]): as_num(v)}
+        return "area-extreme"
+
+    def centre(k):
+        def c():
+            v = rng.choice(TINY_MAGS + HUGE_MAGS + HUGE_MAGS + [INF, 0, 2 ** 53 + 1])
+            return as_num(-v if rng.random() < 0.3 else v)
+        mods[k]["center"] = [c(), c()] if rng.random() < 0.5 else rng.choice([[c(), rng.randrange(0, 50)], [F(rng.randrange(0, 400), 8), c()]])
+        return "centre-extreme"
+
+    def aspect(k):
+        if rng.random() < 0.5:
+            mods[k]["aspect_ratio"] = as_num(rng.choice(TINY_MAGS + HUGE_MAGS + [INF]))
+        else:
+            lo = rng.choice([0, F(0)] + TINY_MAGS + [1, F(1)])
+            hi = rng.choice([1, F(1)] + HUGE_MAGS + [INF, 2 ** 53 + 1])
+            mods[k]["aspect_ratio"] = [lo, as_num(hi)]
+        return "aspect-ratio-extreme"
+
+    def weight(j):
+        nets = d["Nets"]
+        nets[j] = list(net_members(nets[j])) + [as_num(rng.choice(TINY_MAGS + HUGE_MAGS + [INF, 2 ** 53 + 1]))]
+        return "weight-extreme"
+
+    for k in plain:
+        edits += [(ground_absorbs, k)] * 4 + [(region_absorbs, k), (all_huge, k), (all_tiny, k), (scalar_area, k), (scalar_area, k),
+                                               (aspect, k), (aspect, k)]
+        edits.append((centre, k))
+    for k in soft:
+        if k not in plain:
+            edits += [(aspect, k)]
+    for k in term:
+        if "rectangles" not in mods[k]:
+            edits.append((centre, k))
+    for j in range(len(d.get("Nets") or [])):
+        edits.append((weight, j))
+    tags = []
+    if not edits:
+        # a document without any soft module and without nets: give it a soft module
+        mods["xS"] = {"area": 1}
+        edits = [(ground_absorbs, "xS")] * 4 + [(all_huge, "xS"), (scalar_area, "xS"), (centre, "xS"), (aspect, "xS")]
+    done = set()
+    for _ in range(n_edits or rng.choice([1, 1, 2, 3, 5])):
+        f, arg = rng.choice(edits)
+        what = "area" if f in (ground_absorbs, region_absorbs, all_huge, all_tiny, scalar_area) else f.__name__
+        if (what, arg) in done:
+            continue
+        done.add((what, arg))
+        tags.append(f(arg))
+    return d, tags, extreme_exact(d)
+
+
+# --------------------------------------------------------------------------
 # YAML text written by hand
 # --------------------------------------------------------------------------
 PLAIN_OK = re.compile(r"[A-Za-z_][A-Za-z0-9_]*")
@@ -742,6 +901,8 @@ def spell_str(rng, s: str, force_quote=False) -> str:
 
 
 def spell_float(rng, v: float) -> str:
+    if math.isinf(v):
+        return rng.choice([".inf", ".Inf", ".INF", "+.inf"]) if v > 0 else rng.choice(["-.inf", "-.Inf", "-.INF"])
     if v == 0:
         return rng.choice(["0.0", "0.", ".0", "0e0", "0.0e+0", "+0.0"]) if math.copysign(1, v) > 0 else rng.choice(["-0.0", "-0.", "-.0", "-0e0"])
     cands = [repr(v), f"{v:.17e}", f"{v:.17E}", f"{v:.20g}"]
@@ -964,7 +1125,7 @@ def histories(rng, doc):
                 if isinstance(x, bool):
                     return x
                 if isinstance(x, (int, F)):
-                    return x * 2
+                    return x * 2 if abs(x) < 2 ** 1000 else x      # (the largest float of an `extreme` document stays one)
                 if isinstance(x, dict):
                     return {k: (scale(v) if k not in ("aspect_ratio",) else v) for k, v in x.items()}
                 if isinstance(x, list):
